@@ -60,3 +60,53 @@ MODEL_SPEC = {
         },
     },
 }
+
+
+# How the alternatives of a (part, kind) are chosen.  'min': "the free partial copy is chosen optimally at
+# duplications"; 'conserved': "fixed to the transferred child at transfers" / "only the conserved child of a
+# transfer stays on a vertical branch" - the choice is dictated by the mapping, never by the cheaper outcome.
+SELECTOR_SPEC = {
+    "rec.SPECIATION": "",
+    "rec.DUPLICATION": "",
+    "rec.HORIZONTAL_TRANSFER": "conserved",
+    "ordered.SPECIATION": "",
+    "ordered.DUPLICATION": "min",
+    "ordered.HORIZONTAL_TRANSFER": "conserved",
+    "unordered.SPECIATION": "",
+    "unordered.DUPLICATION": "min",
+    "unordered.HORIZONTAL_TRANSFER": "conserved",
+}
+
+
+# ---------------------------------------------------------------------------
+# documented classification of an internal object node (EVENT-TABLE)
+#
+# n = species of the node, l / r = species of its first / second child; `m` is a relmodel.TreeModel.
+# Sources: docstrings of NodeEvent in model/reconciliation.py ("transmission of the parent object to both
+# children species", "duplication of the parent object in the same genome", "transfer of the parent object
+# to a foreign genome", "scenarios that are invalid wrt the evolutionary model") and the statements of
+# C01/C04/C06 (a vertical branch only goes down; one child of a transfer leaves the lineage of the node).
+
+EVENT_SENTENCES = {
+    "SPECIATION": "both children stay below the node's species, in two different child lineages of it "
+    "(the node sits exactly at the LCA of two incomparable species)",
+    "DUPLICATION": "both children stay at or below the node's species without being a speciation "
+    "(same lineage, or the node sits strictly above the LCA of the children)",
+    "HORIZONTAL_TRANSFER": "exactly one child stays at or below the node's species, the other one is in a "
+    "species incomparable with it",
+    "INVALID": "a child is mapped strictly above the node's species, or no child stays at or below it",
+}
+
+
+def model_event(m, n: int, l: int, r: int) -> str:
+    below_l, below_r = m.anc(n, l), m.anc(n, r)
+    if below_l and below_r:
+        if m.lca(l, r) == n and not m.comparable(l, r):
+            return "SPECIATION"
+        return "DUPLICATION"
+    if below_l != below_r:
+        other = r if below_l else l
+        if m.comparable(n, other):
+            return "INVALID"  # the other child is strictly above the node
+        return "HORIZONTAL_TRANSFER"
+    return "INVALID"
